@@ -81,6 +81,14 @@ CHECKS = {
         note="The CLI part enumerates (no symbolic content); argparse and real pipes are outside. The text rules are regular-expression definitions of 'prologue assignment' and 'fill loop' lines in vf/props/c11.py.",
         design="DESIGN.md §5 C11",
     ),
+    "C12": dict(
+        engine="ndset",
+        category=MC,
+        technique="set iteration order made an explicit choice (shadow set class installed in the tool's modules), schedules explored exhaustively per choice point with z3-checked coverage of the choice tree; findings replayed under real PYTHONHASHSEED values; history independence compared in-process and against fresh processes",
+        text="Programs with one to three implicit arrays, several strings / scalars / DIM sizes / line references / temporaries / runtime dependencies are converted while every iteration over a Python set in visitors, compiler, elements and procbank is a choice point: all n! orders for sets of <= 3 elements (sorted / reversed / rotations above), one deviation from the default order at a time (two in thorough); z3 confirms that every alternative of every reached choice point was explored. All schedules must give byte-identical output; differing ones are replayed in subprocesses with real hash seeds. The same programs are converted repeatedly, in reverse order and in fresh processes to show independence of history.",
+        note="CPython's hash function is modelled as an arbitrary order, not encoded (stated); simultaneous deviations bounded (1 quick / 2 thorough). Decoder determinism is implied by C16/C17 within their bounds.",
+        design="DESIGN.md §3 E6, §5 C12",
+    ),
     "C13": dict(
         engine="tv+rxsmt",
         category=TV,
